@@ -239,7 +239,8 @@ def _same_structure(op: Any, kind: ClassInfo) -> bool:
         while isinstance(cur, SymObj) and 'operator' in cur.attrs:
             cur = cur.attrs['operator']
         structs.append(cur.attrs.get('_in_structure') if isinstance(cur, SymObj) else None)
-    return all(s is structs[0] and isinstance(s, Rec) and s.cls is kind for s in structs)
+    # the same structure value (built once and shared, or built again from the same arguments)
+    return all(isinstance(s, Rec) and s.cls is kind and (s is structs[0] or s == structs[0]) for s in structs)
 
 
 def _factories(ck, pol: Polarimetry, kind: ClassInfo, L: str, tag: str, a: Poly) -> None:
